@@ -146,6 +146,15 @@ ParIndex(P, m, name) ==
         hit == {i \in 1..Len(pars) : pars[i].name = name}
     IN IF hit = {} THEN 0 ELSE CHOOSE i \in hit : TRUE
 
+\* A production may assign local variables before its asm block
+\* (`{ d = a + 1  asm { ld {d} } }', prod.assigns: sequence of [name, e]):
+\* `{d}' for a LOCAL d passes the value, not text: the line sees a fresh
+\* identifier (LocName) that is bound to the local's value.
+Assigns(prod) == IF "assigns" \in DOMAIN prod THEN prod.assigns ELSE <<>>
+LocalNames(prod) == {Assigns(prod)[k].name : k \in 1..Len(Assigns(prod))}
+LocName(n) == "__" \o n
+LocTok(n, b) == [k |-> "id", s |-> LocName(n), lc |-> LocName(n), c0 |-> "_", text |-> <<>>, b |-> b]
+
 RECURSIVE SubstToks(_, _, _, _, _)
 \* [ok, toks]
 SubstToks(P, ctoks, m, ltoks, i) ==
@@ -153,6 +162,8 @@ SubstToks(P, ctoks, m, ltoks, i) ==
     ELSE LET rest == SubstToks(P, ctoks, m, ltoks, i + 1) IN
          IF ~rest.ok THEN rest
          ELSE IF ltoks[i].k # "ph" THEN [ok |-> TRUE, toks |-> <<ltoks[i]>> \o rest.toks]
+         ELSE IF ltoks[i].s \in LocalNames(P.rules[m.r].prod)
+         THEN [ok |-> TRUE, toks |-> <<LocTok(ltoks[i].s, ltoks[i].b)>> \o rest.toks]
          ELSE LET pi == ParIndex(P, m, ltoks[i].s) IN
               IF pi = 0 THEN [ok |-> FALSE, toks |-> <<>>]            \* unknown substitution argument
               ELSE LET span == SubSeq(ctoks, m.args[pi].from, m.args[pi].to - 1)
@@ -268,8 +279,19 @@ EvalCand(P, toks, m, env) ==
     ELSE IF prod.k = "asm"
     THEN IF DepthOf(env) + 1 >= MaxEvalDepth THEN ErrV
          ELSE IF env["$"].t # "int" THEN ErrV
-         ELSE AsmLines(P, toks, m, prod.lines, env,
-                       AsmLabelEnv(P, toks, m, prod.lines, env, env["$"].v * 8), 1, <<>>)
+         ELSE LET \* the local variables, in order, each seeing the parameters and the locals before it
+                  penv == [x \in DOMAIN env \cup DOMAIN b.loc |-> IF x \in DOMAIN b.loc THEN b.loc[x] ELSE env[x]]
+                  RECURSIVE Locals(_, _, _)
+                  Locals(k, e, acc) ==
+                      IF k > Len(Assigns(prod)) THEN [ok |-> TRUE, v |-> VoidV, loc |-> acc]
+                      ELSE LET x == Eval(Assigns(prod)[k].e, e).v IN
+                           IF Propagates(x) THEN [ok |-> FALSE, v |-> x, loc |-> acc]
+                           ELSE Locals(k + 1, Bind(e, Assigns(prod)[k].name, x), Bind(acc, LocName(Assigns(prod)[k].name), x))
+                  lv == Locals(1, penv, <<>>)
+              IN IF ~lv.ok THEN lv.v
+                 ELSE LET env2 == [x \in DOMAIN env \cup DOMAIN lv.loc |-> IF x \in DOMAIN lv.loc THEN lv.loc[x] ELSE env[x]] IN
+                      AsmLines(P, toks, m, prod.lines, env2,
+                               AsmLabelEnv(P, toks, m, prod.lines, env2, env["$"].v * 8), 1, <<>>)
     ELSE Eval(prod, [x \in DOMAIN env \cup DOMAIN b.loc \cup {"#depth"} |->
                         IF x = "#depth" THEN IntV(DepthOf(env) + 1, -1)
                         ELSE IF x \in DOMAIN b.loc THEN b.loc[x] ELSE env[x]]).v
